@@ -102,4 +102,9 @@ example : (breakTime zEx 0 2001600).val.1.cs = ⟨1970, 1, 24, 4, 0, 0⟩ ∧
     (Tz.makeTime zEx 3 ⟨1970, 1, 24, 4, 0, 0⟩).val.1 = ⟨.repeated, 1998000, 2000000, 2001600⟩ := by
   decide +kernel
 
+/-- hypotheses of `converse` on a UNIQUE civil second of `zEx` -/
+example : TableWF zEx ∧ CivilCols zEx ∧ Separated zEx ∧ Valid ⟨1970, 1, 20, 0, 0, 0⟩ ∧
+    NoShift zEx ⟨1970, 1, 20, 0, 0, 0⟩ ∧ (Tz.makeTime zEx 0 ⟨1970, 1, 20, 0, 0, 0⟩).val.1.kind = .unique :=
+  ⟨zEx_wf, zEx_cols, zEx_sep, by decide, Or.inl rfl, by decide +kernel⟩
+
 end Cctz.C03
